@@ -53,22 +53,30 @@ func main() {
 	}()
 	if *tier == "thorough" {
 		vs := core.RunSelftests(*prop, *repo, *verif)
-		run, det := 0, 0
-		var misses []string
+		run, det, brun, bquiet := 0, 0, 0, 0
+		var misses, falseAlarms []string
 		for _, v := range vs {
-			if v.Applied {
+			status := "DETECTED"
+			switch {
+			case !v.Applied:
+				status = "SKIPPED (" + v.Note + ")"
+			case v.Kind == "benign":
+				brun++
+				if v.Detected {
+					status = "FALSE ALARM"
+					falseAlarms = append(falseAlarms, v.Name)
+				} else {
+					status = "SILENT (as it must be)"
+					bquiet++
+				}
+			default:
 				run++
 				if v.Detected {
 					det++
 				} else {
+					status = "MISSED"
 					misses = append(misses, v.Name)
 				}
-			}
-			status := "DETECTED"
-			if !v.Applied {
-				status = "SKIPPED (" + v.Note + ")"
-			} else if !v.Detected {
-				status = "MISSED"
 			}
 			first := ""
 			if len(v.Reports) > 0 {
@@ -79,6 +87,12 @@ func main() {
 		rep.Selftest = map[string]any{
 			"what":     "the checker run on seeded variants of the repository (scratch copies under /var/tmp, removed afterwards): hand-made single-instance variants, variants written by independent sub-agents given only the property text, and reversals of the fix: commits; every variant compiles and passes the 51 existing tests",
 			"variants": vs, "variants_run": run, "variants_detected": det, "missed": misses,
+			"benign_variants_run": brun, "benign_variants_silent": bquiet, "false_alarms": falseAlarms,
+		}
+		rep.Unit("benign_variants_run", brun)
+		rep.Unit("benign_variants_silent", bquiet)
+		if len(falseAlarms) > 0 {
+			rep.Note("selftest: the check raised an alarm on %d behaviour-preserving variant(s): %v", len(falseAlarms), falseAlarms)
 		}
 		rep.Unit("selftest_variants_run", run)
 		rep.Unit("selftest_variants_detected", det)
